@@ -23,3 +23,13 @@ package planner
 //@   ensures asof_changed: result1 == (abs(query.AsOf) != 0 && abs(query.AsOf) != abs(source.GetAsOf()))
 //@   ensures until_changed: result3 == (abs(query.Until) != 0 && abs(query.Until) != abs(source.GetUntil()))
 //@   nopanic
+
+// C16/C06: the resolution a plan runs at is a positive whole multiple of the source's resolution, or the query is
+// rejected with an error (a zero or negative step makes the flatten stage's `ts = ts.Add(resolution)` loop run forever,
+// and SubMerge divides by it).
+//@ func resolutionFor
+//@   requires query != nil && source != nil && source.GetResolution() > 0
+//@   requires times: normalTime(asOf) && normalTime(until)
+//@   ensures positive_multiple: result4 == nil ==> result0 >= source.GetResolution() && result0 % source.GetResolution() == 0
+//@   ensures changed_flag: result4 == nil ==> result2 == (result0 != source.GetResolution())
+//@   ensures stride_multiple: result4 == nil && query.Stride > 0 ==> query.Stride % source.GetResolution() == 0
